@@ -22,7 +22,7 @@ func main() {
 	twin.Rekey = rekey
 	twin.RunAll(r, nil, key, twin.Options{}, par.Opts{})
 	r.Set("exhaustive", true)
-	r.Set("rule", "programs = control-flow contexts nested around payload statements (destination x source x form), pool shown after every statement, 3 input tuples; enumerated completely per family (a: nesting, b: statement pairs, c: triple nesting, d: loop-variable capture); non-trivial = output lines not all equal; states = distinct program outputs; transitions = Show steps")
+	r.Set("rule", "programs = control-flow contexts nested around payload statements (destination x source x form), pool shown after every statement, 3 input tuples; enumerated completely per family (a: nesting, b: statement pairs, c: triple nesting, d: loop-variable capture, e: boolean expressions over 10 operand kinds x 4 operator forms x 6 use forms re-evaluated while operand values change); non-trivial = output lines not all equal; states = distinct program outputs; transitions = Show steps")
 	r.Finish()
 }
 
@@ -38,7 +38,12 @@ func key(c twin.Case, n, i twin.Obs) string { return c.Name }
 // A program with no failing sub-program is minimal and is its own finding.
 func rekey(name, key string, failing map[string]bool) string {
 	f := strings.SplitN(name, " ", 2)
-	if len(f) < 2 || f[0] == "d" {
+	if len(f) >= 2 && f[0] == "e" && strings.Contains(name, "e.(bool)") {
+		// one root cause whatever the other operand: a type assertion as operand of a short-circuit operator
+		head, _, _ := strings.Cut(f[1], "/")
+		return "e type-assertion-operand " + head
+	}
+	if len(f) < 2 || f[0] == "d" || f[0] == "e" {
 		return name
 	}
 	ctxs, pay, _ := strings.Cut(f[1], "/")
